@@ -21,6 +21,7 @@ type CEnv struct {
 	vars    map[string]Val
 	over    map[ssa.Value]Val
 	atBlock *ssa.BasicBlock
+	atEnd   bool
 	pkg     *types.Package
 	pc      *PkgContracts
 	cl      *Clause
@@ -345,7 +346,8 @@ func (e *CEnv) constObj(o *types.Const) Val {
 	return Val{}
 }
 
-// lookupLocal resolves a source-level local variable name at the evaluation point.
+// lookupLocal resolves a source-level local variable name at the evaluation point
+// (start of e.atBlock, or end of e.atBlock when e.atEnd is set; exit context when atBlock is nil).
 func (e *CEnv) lookupLocal(name string) (Val, bool) {
 	fr := e.fr
 	get := func(v ssa.Value) Val {
@@ -356,8 +358,8 @@ func (e *CEnv) lookupLocal(name string) (Val, bool) {
 		}
 		return e.ex.val(fr, v)
 	}
-	// 1. phi of the block of interest
-	if e.atBlock != nil {
+	// overrides by comment (phis being bound explicitly, e.g. back-edge values)
+	if e.atBlock != nil && !e.atEnd {
 		for _, in := range e.atBlock.Instrs {
 			phi, ok := in.(*ssa.Phi)
 			if !ok {
@@ -368,58 +370,72 @@ func (e *CEnv) lookupLocal(name string) (Val, bool) {
 			}
 		}
 	}
-	// 2. overrides by comment (phis of enclosing loops)
-	for v, ov := range e.over {
-		if phi, ok := v.(*ssa.Phi); ok && phi.Comment == name {
-			return ov, true
-		}
-	}
-	// 3. debug refs: last definition dominating the block of interest
-	var best ssa.Value
-	var bestAddr bool
-	at := e.atBlock
-	for _, b := range fr.fn.Blocks {
-		if at != nil && !(b == at || b.Dominates(at)) {
-			continue
-		}
+	var found ssa.Value
+	var isAddr bool
+	var atStart, atEnd func(b *ssa.BasicBlock, depth int) bool
+	atStart = func(b *ssa.BasicBlock, depth int) bool {
 		for _, in := range b.Instrs {
-			dr, ok := in.(*ssa.DebugRef)
+			phi, ok := in.(*ssa.Phi)
+			if !ok {
+				break
+			}
+			if phi.Comment == name {
+				found, isAddr = phi, false
+				return true
+			}
+		}
+		if idom := b.Idom(); idom != nil && depth < 10000 {
+			return atEnd(idom, depth+1)
+		}
+		return false
+	}
+	atEnd = func(b *ssa.BasicBlock, depth int) bool {
+		for i := len(b.Instrs) - 1; i >= 0; i-- {
+			dr, ok := b.Instrs[i].(*ssa.DebugRef)
 			if !ok {
 				continue
 			}
 			if obj := dr.Object(); obj != nil && obj.Name() == name {
 				if _, isVar := obj.(*types.Var); isVar {
-					if b == at {
-						// same block: only accept values that are phis/params (defined at block start)
-						if _, isPhi := dr.X.(*ssa.Phi); !isPhi {
-							if _, isPar := dr.X.(*ssa.Parameter); !isPar && !dr.IsAddr {
-								continue
-							}
-						}
-					}
-					best = dr.X
-					bestAddr = dr.IsAddr
+					found, isAddr = dr.X, dr.IsAddr
+					return true
 				}
 			}
 		}
+		return atStart(b, depth)
 	}
-	if best == nil && at == nil {
-		// exit context: any debug ref
+	ok := false
+	switch {
+	case e.atBlock != nil && e.atEnd:
+		ok = atEnd(e.atBlock, 0)
+	case e.atBlock != nil:
+		ok = atStart(e.atBlock, 0)
+	default:
+		// exit context without a specific block: only unambiguous for variables with a single definition
+		var only ssa.Value
+		n := 0
 		for _, b := range fr.fn.Blocks {
 			for _, in := range b.Instrs {
-				if dr, ok := in.(*ssa.DebugRef); ok {
+				if dr, isDR := in.(*ssa.DebugRef); isDR {
 					if obj := dr.Object(); obj != nil && obj.Name() == name {
-						best, bestAddr = dr.X, dr.IsAddr
+						if only != dr.X {
+							only = dr.X
+							isAddr = dr.IsAddr
+							n++
+						}
 					}
 				}
 			}
 		}
+		if n == 1 {
+			found, ok = only, true
+		}
 	}
-	if best == nil {
+	if !ok || found == nil {
 		return Val{}, false
 	}
-	v := get(best)
-	if bestAddr {
+	v := get(found)
+	if isAddr {
 		a := e.ex.toAddr(v)
 		t := e.ex.typeAt(a)
 		return e.ex.loaded(t, e.ex.load(e.st, a), e.st), true
@@ -803,7 +819,19 @@ func (e *CEnv) applyPred(pd *PredDecl, args []Expr) Val {
 		s.vars[p] = vals[i]
 	}
 	s.fr = nil
+	e.enterPredPkg(s, pd)
 	return s.eval(pd.Body)
+}
+
+// enterPredPkg makes a predicate body resolve names in the package that declares it.
+func (e *CEnv) enterPredPkg(s *CEnv, pd *PredDecl) {
+	if pd.PkgPath == "" || (s.pkg != nil && s.pkg.Path() == pd.PkgPath) {
+		return
+	}
+	if tp := e.ex.Prog.TypesPkg(pd.PkgPath); tp != nil {
+		s.pkg = tp
+		s.pc = e.ex.Prog.contracts[pd.PkgPath]
+	}
 }
 
 func (e *CEnv) lookupTypeName(name string) types.Type {
@@ -914,6 +942,7 @@ func (e *CEnv) applyRec(pd *PredDecl, args []Expr) Val {
 		s := e.sub()
 		s.vars = map[string]Val{}
 		s.fr = nil
+		e.enterPredPkg(s, pd)
 		var bound []*smt.Term
 		for i, p := range pd.Params {
 			pt := e.specType(pd.ParamTypes[i])
